@@ -335,16 +335,37 @@ func history(t *testing.T, c *vk.C, rng *rand.Rand, i int) map[string]int {
 				sw.Viol("C05", "blast-radius", "other-torrent-peer-lost after "+hm.cls, "a peer of another torrent was disconnected")
 				return
 			}
-			if s%8 == 7 {
-				if _, err := tr.T.GetStats(); err != nil {
-					sw.Viol("C05", "blast-radius", "torrent-loop-dead after "+hm.cls, fmt.Sprintf("GetStats: %v", err))
-					return
-				}
-				if _, err := tr2.T.GetStats(); err != nil {
-					sw.Viol("C05", "blast-radius", "other-torrent-loop-dead after "+hm.cls, fmt.Sprintf("GetStats: %v", err))
+			if s%4 == 3 {
+				if !tr.LoopAlive("C05", "after-hostile-peer") || !tr2.LoopAlive("C05", "other-torrent") {
 					return
 				}
 				c.Count("canary_probes", 1)
+			}
+			// abrupt ends: the peer vanishes, possibly in the middle of a frame or right after connecting
+			if rng.IntN(12) == 0 {
+				switch rng.IntN(3) {
+				case 0:
+					fr := hostile(rng, g, h).frame
+					h.SendRaw(fr[:rng.IntN(len(fr))])
+					h.Close()
+					sw.Act("%s closes in the middle of a frame", h.Name)
+				case 1:
+					h.Close()
+					sw.Act("%s closes", h.Name)
+				case 2:
+					h.Close()
+					h2 := connect()
+					h2.Close() // gone before storrent has finished its own opening messages
+					sw.Act("%s connects and closes at once", h2.Name)
+				}
+				st["abrupt_close"]++
+				sw.Cut()
+				if !tr.LoopAlive("C05", "after-abrupt-close") {
+					return
+				}
+				h = connect()
+				maxFrame = 0
+				sw.Cut()
 			}
 			if sw.C.Violated() {
 				return
